@@ -13,8 +13,11 @@ package main
 
 import (
 	"bytes"
+	"encoding/json"
 	"fmt"
+	"io"
 	"os"
+	"os/exec"
 	"path/filepath"
 	"strconv"
 	"strings"
@@ -196,7 +199,73 @@ func c06Agent(cfgPath string, env *c06E2E, stalled func(output string) bool, sen
 	return ""
 }
 
+// c06E2EChildTuples: a kind-5 case with more records than this runs in a process of its own (see c06RunE2EChild)
+const c06E2EChildTuples = 40
+
 func c06RunE2E(c *Case) (out string, fails []Fail) {
+	if len(c.Z) == 2 && c.Z[0] >= 1 && (int64(len(c.S))-1-c.Z[0])/c.Z[0] > c06E2EChildTuples && os.Getenv("C06_E2E_CHILD") == "" {
+		return c06RunE2EChild(c)
+	}
+	return c06RunE2EInProc(c)
+}
+
+// c06RunE2EChild runs the case in a fresh process (harness C06 child; the case line on stdin, the output and the oracle
+// failures as JSON on stdout).  Every real pipeline allocates about 4 MB of encoder and chunk buffers, twice per case
+// (two agent lives): 512 key sets are 2 x 2 GB.  In a fresh process that memory comes zeroed from the kernel and is
+// never touched (85 MB resident); in the long-running generator it is recycled heap, which the runtime clears first -
+// gigabytes of page touching per case (2.4 GB resident), seconds here and minutes on a machine whose memory is slow to
+// touch, where the case then looked like a hang.  What the case does and what is compared is the same in both forms.
+func c06RunE2EChild(c *Case) (out string, fails []Fail) {
+	exe, err := os.Executable()
+	if err != nil {
+		return c06RunE2EInProc(c)
+	}
+	cmd := exec.Command(exe, "C06", "child")
+	cmd.Env = append(os.Environ(), "C06_E2E_CHILD=1")
+	cmd.Stdin = strings.NewReader(c.Line() + "\n")
+	var stdout, stderr bytes.Buffer
+	cmd.Stdout, cmd.Stderr = &stdout, &stderr
+	werr := runChild(cmd)
+	var res struct {
+		Out   string
+		Fails []Fail
+	}
+	if werr == nil {
+		if jerr := json.Unmarshal(stdout.Bytes(), &res); jerr == nil && res.Out != "" {
+			return res.Out, res.Fails
+		}
+	}
+	// the child died: a panic or a fatal error in one of the implementation's goroutines (in-process it would have
+	// taken the generator down), or the watchdog ended it; the end of its stderr says which
+	tail := stderr.String()
+	os.WriteFile("c06_child_stderr.txt", []byte("case "+c.Line()+"\n\n"+tail), 0o644)
+	if i := strings.Index(tail, "\ngoroutine "); i >= 0 {
+		tail = tail[:i]
+	}
+	if len(tail) > 600 {
+		tail = tail[len(tail)-600:]
+	}
+	tail = strings.NewReplacer("\n", " ", "\t", " ", "|", "/").Replace(tail)
+	return "panic", []Fail{{"c06:panic", fmt.Sprintf("the process running the case ended abnormally (%v): %s", werr, tail)}}
+}
+
+// c06Child: harness C06 child
+func c06Child(args []string) {
+	data, _ := io.ReadAll(os.Stdin)
+	c, err := parseCaseLine(strings.TrimSpace(string(data)))
+	if err != nil {
+		fmt.Fprintln(os.Stderr, "bad case line:", err)
+		os.Exit(2)
+	}
+	out, fails := c06Run(c)
+	b, _ := json.Marshal(struct {
+		Out   string
+		Fails []Fail
+	}{out, fails})
+	os.Stdout.Write(b)
+}
+
+func c06RunE2EInProc(c *Case) (out string, fails []Fail) {
 	if len(c.Z) != 2 || len(c.S) < 1 {
 		return "badcase", nil
 	}
